@@ -3,7 +3,8 @@
    P always contains ToAdmin, ToApp, OnLogon, OnLogout; FromAdmin / FromApp for a message m are logged only when m is
    processed (side condition msg_ok m); a store reset (CbStoreReset) is logged only by
      - prepMessageForSend for a Logon carrying 141=Y (side condition rs_ok t body at the callers that take the type from outside),
-     - handleLogon for a Logon carrying 141=Y, or under ResetOnLogon (acceptor),
+     - handleLogon for a Logon carrying 141=Y that the validator and the application accept (verifyMsgAgainstAppImpl runs
+       before the reset decision: side condition `accepted`), or under ResetOnLogon (acceptor),
      - handleLogout under ResetOnLogout, handleDisconnectState under ResetOnDisconnect, connect under ResetOnLogon.
    Instances: P = "not FromAdmin for a Logout" (C07 clause 710), P = "not a store reset" (C07 clause 705). *)
 From Coq Require Import String.
@@ -18,6 +19,17 @@ Open Scope Z_scope.
 
 Lemma logon_body_plain s : body_has_reset_y (logon_body s false) = false.
 Proof. unfold logon_body, body_has_reset_y. destruct (Nat.ltb 0 (length (c_appl_ver (s_cfg s)))); reflexivity. Qed.
+
+(* the validator and the application (FromAdmin / FromApp) accept the message *)
+Definition accepted (m : minput) : bool :=
+  match mi_valid m with VAccept => true | _ => false end && match mi_app m with VAccept => true | _ => false end.
+
+Lemma verify_app_passes_accepted s m s1 : verify_msg_against_app_impl s m = (s1, None) -> accepted m = true.
+Proof.
+  unfold verify_msg_against_app_impl, accepted. intros E.
+  destruct (mi_valid m); cbn [rej_of_verdict] in E; try discriminate E.
+  destruct (mi_app m); cbn [rej_of_verdict] in E; try discriminate E. reflexivity.
+Qed.
 
 Section NewCb.
 Variable P : cb -> bool.
@@ -43,7 +55,7 @@ Definition msg_ok (m : minput) : Prop :=
   P (CbFromAdmin (mi_type m) (mi_seq m) (facts_of m)) = true
   /\ forall tg, P (CbFromApp (mi_seq m) tg (mi_app m) (facts_of m)) = true.
 Definition m_ok (m : minput) : Prop :=
-  msg_ok m /\ (rs_free \/ beq_bytes (mi_type m) T_LOGON = false \/ reset_flag m = false).
+  msg_ok m /\ (rs_free \/ beq_bytes (mi_type m) T_LOGON = false \/ (reset_flag m && accepted m) = false).
 
 Ltac ncb_side :=
   first [ assumption | reflexivity | apply P_toadmin | apply P_toapp | exact P_onlogon | exact P_onlogout ].
@@ -274,14 +286,17 @@ Proof.
 Qed.
 
 Lemma ncb_handle_logon s m s1 r : handle_logon s m = (s1, r) ->
-  msg_ok m -> lg_ok (reset_flag m) -> cfg_ok (s_cfg s) -> Ncb s0 s -> Ncb s0 s1.
+  msg_ok m -> lg_ok (reset_flag m && accepted m) -> cfg_ok (s_cfg s) -> Ncb s0 s -> Ncb s0 s1.
 Proof.
-  intros E Hm Hl Hc H. rewrite handle_logon_unfold in E.
+  intros E Hm Hl0 Hc H. rewrite handle_logon_unfold in E.
   destruct (if c_begin (s_cfg s) =? 5 then match mi_applver m with None => Some (R_cond_missing 1137) | Some _ => None end else None).
   { inv E. exact H. }
   destruct (verify_msg_against_app_impl s m) as [sa ra] eqn:Ev.
   assert (Ha : Ncb s0 sa) by (eapply ncb_verify_app; eassumption).
   destruct ra as [ra|]; [inv E; exact Ha|].
+  (* the reset decision comes after verifyMsgAgainstAppImpl: the Logon has been accepted *)
+  assert (Hl : lg_ok (reset_flag m)).
+  { rewrite (verify_app_passes_accepted _ _ _ Ev), andb_true_r in Hl0. exact Hl0. }
   cbv zeta in E.
   match type of E with context [verify_select ?x m false true false] => set (s2 := x) in * end.
   assert (H2 : Ncb s0 s2).
@@ -320,7 +335,7 @@ Lemma ncb_handle_resend_request s m s1 st : handle_resend_request s m = (s1, st)
 Proof. intros E Hm H. unfold handle_resend_request in E. ncb_pairlemma E. Qed.
 End L7.
 
-Lemma m_ok_lg m : m_ok m -> beq_bytes (mi_type m) T_LOGON = true -> lg_ok (reset_flag m).
+Lemma m_ok_lg m : m_ok m -> beq_bytes (mi_type m) T_LOGON = true -> lg_ok (reset_flag m && accepted m).
 Proof. intros [_ [H|[H|H]]] Ht; [left; exact H | congruence | right; exact H]. Qed.
 
 Section L8.
